@@ -719,3 +719,328 @@ Proof. intros t k v H. unfold ht_has. rewrite ht_add_get by exact H. rewrite Z.e
 
 Lemma ht_remove_has : forall t k, ht_has (ht_remove t k) k = false.
 Proof. intros t k. unfold ht_has. rewrite ht_remove_get, Z.eqb_refl. reflexivity. Qed.
+
+(* ================================================================== D. NameSet: the string memory *)
+(* "memory operations change no observable": every name of the set reads back as its own string before and after
+   memPack / memRemax / add / removals *)
+Definition region {A} (mem : list A) (o k : nat) : list A := firstn k (skipn o mem).
+
+Lemma region_app_l {A} (a y : list A) o k : (o + k <= length a)%nat -> region (a ++ y) o k = region a o k.
+Proof.
+  intros H. unfold region. rewrite skipn_app. replace (o - length a)%nat with 0%nat by lia. cbn [skipn].
+  rewrite firstn_app, skipn_length. replace (k - (length a - o))%nat with 0%nat by lia. cbn [firstn]. apply app_nil_r.
+Qed.
+
+Lemma region_firstn {A} (b : list A) m o k : (o + k <= m)%nat -> region (firstn m b) o k = region b o k.
+Proof. intros H. unfold region. rewrite skipn_firstn_comm, firstn_firstn. f_equal. lia. Qed.
+
+Lemma region_prefix {A} (b y : list A) m o k : (o + k <= m)%nat -> (o + k <= length b)%nat ->
+  region (firstn m b ++ y) o k = region b o k.
+Proof.
+  intros H1 H2. rewrite region_app_l by (rewrite firstn_length; lia). apply region_firstn. exact H1.
+Qed.
+
+Lemma write_at_zlen mem off s : 0 <= off -> off + zlen s <= zlen mem -> zlen (write_at mem off s) = zlen mem.
+Proof. unfold write_at, zlen. intros H1 H2. rewrite !app_length, firstn_length, skipn_length. lia. Qed.
+
+Lemma write_at_same mem off s : 0 <= off -> off <= zlen mem ->
+  region (write_at mem off s) (Z.to_nat off) (length s) = s.
+Proof.
+  unfold write_at, region. intros H1 H2.
+  assert (Hl : length (firstn (Z.to_nat off) mem) = Z.to_nat off) by (rewrite firstn_length; unfold zlen in *; lia).
+  rewrite skipn_app, Hl, Nat.sub_diag. rewrite skipn_all2 by lia. cbn [skipn app]. apply firstn_app_len.
+Qed.
+
+Lemma write_at_other mem off s o k : 0 <= off -> off <= zlen mem -> (o + k <= Z.to_nat off)%nat ->
+  region (write_at mem off s) o k = region mem o k.
+Proof.
+  unfold write_at. intros H1 H2 H3. apply region_prefix; [exact H3 | unfold zlen in *; lia].
+Qed.
+
+Lemma cstr_of_app s r : Forall (fun c => c <> 0) s -> cstr_of (s ++ 0 :: r) = s.
+Proof.
+  induction 1 as [|c s Hc Hs IH]; cbn [app cstr_of]; [reflexivity|].
+  destruct (Z.eqb_spec c 0) as [E|E]; [contradiction|]. rewrite IH. reflexivity.
+Qed.
+
+Lemma nstr_nonzero id : Forall (fun c => c <> 0) (nstr id).
+Proof.
+  unfold nstr. apply Forall_forall. intros c Hc. apply repeat_spec in Hc. subst c.
+  pose proof (Z.mod_pos_bound id 3 ltac:(lia)). lia.
+Qed.
+
+Definition nm_size (id : Z) : Z := zlen (nstr id) + 1.
+Definition nm_stored (mem : list Z) (o id : Z) : Prop :=
+  region mem (Z.to_nat o) (length (nstr id) + 1) = nstr id ++ [0].
+
+Lemma nm_size_pos id : 1 <= nm_size id.
+Proof. unfold nm_size. pose proof (zlen_nonneg (nstr id)). lia. Qed.
+
+Lemma cstr_stored mem o id : nm_stored mem o id -> cstr mem o = nstr id.
+Proof.
+  unfold cstr, nm_stored, region. intros H.
+  rewrite <- (firstn_skipn (length (nstr id) + 1) (skipn (Z.to_nat o) mem)). rewrite H.
+  rewrite <- app_assoc. cbn [app]. apply cstr_of_app, nstr_nonzero.
+Qed.
+
+Lemma nm_lookup_in offs id : In id (map fst offs) -> exists o, nm_lookup offs id = Some o /\ In (id, o) offs.
+Proof.
+  induction offs as [|[i o] r IH]; cbn [map fst nm_lookup In]; [intros []|]. intros H.
+  destruct (Z.eqb_spec i id) as [E|E].
+  - subst i. exists o. split; [reflexivity | left; reflexivity].
+  - destruct H as [H|H]; [contradiction|]. destruct (IH H) as (o' & H1 & H2). exists o'. split; [exact H1 | right; exact H2].
+Qed.
+
+Definition offs_size (offs : list (Z * Z)) : Z := fold_right (fun e a => nm_size (fst e) + a) 0 offs.
+Definition order_size (order : list Z) : Z := fold_right (fun id a => zlen (nstr id) + 1 + a) 0 order.
+
+(* well-formedness: order = the identifiers of the names of the set, in any order *)
+Record nm_wf (order : list Z) (st : nmem) : Prop := mk_nm_wf {
+  wf_len : zlen (nm_mem st) = nm_max st;
+  wf_used : 0 <= nm_used st <= nm_max st;
+  wf_order : NoDup order;
+  wf_nonneg : forall id, In id order -> 0 <= id;
+  wf_ids : NoDup (map fst (nm_off st));
+  wf_same : forall id, In id order <-> In id (map fst (nm_off st));
+  wf_stored : forall id o, In (id, o) (nm_off st) ->
+                0 <= o /\ o + nm_size id <= nm_used st /\ nm_stored (nm_mem st) o id;
+  wf_sum : offs_size (nm_off st) <= nm_used st     (* the stored strings do not overlap: their sizes add up *)
+}.
+
+(* 1 *)
+Lemma nm_name_wf : forall order st id, nm_wf order st -> In id order -> nm_name st id = nstr id.
+Proof.
+  intros order st id Hwf Hin. apply (wf_same _ _ Hwf) in Hin.
+  destruct (nm_lookup_in _ _ Hin) as (o & Hl & Ho). unfold nm_name. rewrite Hl.
+  apply cstr_stored. apply (wf_stored _ _ Hwf id o Ho).
+Qed.
+
+(* 2 *)
+Lemma nm_init_wf : forall setmax mmax, 0 <= setmax -> nm_wf [] (nm_init setmax mmax).
+Proof.
+  intros setmax mmax Hs. unfold nm_init. set (m := if mmax <? 1 then 8 * setmax + 1 else mmax).
+  assert (Hm : 0 <= m) by (unfold m; destruct (Z.ltb_spec mmax 1); lia).
+  constructor; cbn [nm_mem nm_used nm_max nm_off map].
+  - rewrite zlen_repeat. lia.
+  - lia.
+  - constructor.
+  - intros id [].
+  - constructor.
+  - intros id. split; intros [].
+  - intros id o [].
+  - cbn. lia.
+Qed.
+
+Lemma offs_size_app a b : offs_size (a ++ b) = offs_size a + offs_size b.
+Proof. unfold offs_size. induction a as [|e a IH]; cbn [app fold_right]; [lia | rewrite IH; lia]. Qed.
+
+Lemma offs_size_order offs : offs_size offs = order_size (map fst offs).
+Proof. unfold offs_size, order_size, nm_size. induction offs as [|e r IH]; cbn [map fold_right]; [reflexivity | rewrite IH; reflexivity]. Qed.
+
+Lemma order_size_perm a b : Permutation a b -> order_size a = order_size b.
+Proof. unfold order_size. induction 1; cbn [fold_right]; lia. Qed.
+
+Lemma order_size_app a b : order_size (a ++ b) = order_size a + order_size b.
+Proof. unfold order_size. induction a as [|e a IH]; cbn [app fold_right]; [lia | rewrite IH; lia]. Qed.
+
+Lemma order_size_nonneg a : 0 <= order_size a.
+Proof. unfold order_size. induction a as [|e a IH]; cbn [fold_right]; [lia|]. pose proof (zlen_nonneg (nstr e)). lia. Qed.
+
+Lemma nm_wf_order_size order st : nm_wf order st -> order_size order = offs_size (nm_off st).
+Proof.
+  intros Hwf. rewrite offs_size_order. apply order_size_perm.
+  apply NoDup_Permutation; [apply (wf_order _ _ Hwf) | apply (wf_ids _ _ Hwf) | apply (wf_same _ _ Hwf)].
+Qed.
+
+(* 3: memPack *)
+Lemma nm_pack_fold old : forall todo buf last offs,
+  (forall id, In id todo -> nm_name old id = nstr id) ->
+  0 <= last -> last + order_size todo <= zlen buf ->
+  (forall id o, In (id, o) offs -> 0 <= o /\ o + nm_size id <= last /\ nm_stored buf o id) ->
+  exists buf' offs',
+    fold_left (nm_pack_step old) todo (buf, last, offs) = (buf', last + order_size todo, offs') /\
+    zlen buf' = zlen buf /\ map fst offs' = map fst offs ++ todo /\
+    offs_size offs' = offs_size offs + order_size todo /\
+    (forall id o, In (id, o) offs' -> 0 <= o /\ o + nm_size id <= last + order_size todo /\ nm_stored buf' o id).
+Proof.
+  induction todo as [|id todo IH]; intros buf last offs Hn Hl Hfit Hst.
+  - exists buf, offs. cbn [fold_left]. change (order_size (@nil Z)) with 0.
+    rewrite !Z.add_0_r, app_nil_r. split; [reflexivity|]. split; [reflexivity|]. split; [reflexivity|]. split; [reflexivity | exact Hst].
+  - cbn [fold_left]. unfold nm_pack_step at 2. rewrite (Hn id (or_introl eq_refl)).
+    change (order_size (id :: todo)) with (zlen (nstr id) + 1 + order_size todo) in *.
+    pose proof (order_size_nonneg todo) as Hnn. pose proof (zlen_nonneg (nstr id)) as Hz.
+    set (buf1 := write_at buf last (nstr id ++ [0])).
+    assert (Hlen1 : zlen buf1 = zlen buf).
+    { apply write_at_zlen; [exact Hl|]. rewrite zlen_app. change (zlen [0]) with 1. lia. }
+    destruct (IH buf1 (last + zlen (nstr id) + 1) (offs ++ [(id, last)])) as (buf' & offs' & E & H1 & H2 & H3 & H4).
+    + intros i Hi. apply Hn. right. exact Hi.
+    + lia.
+    + rewrite Hlen1. lia.
+    + intros i o Hio. apply in_app_or in Hio. destruct Hio as [Hio|[Hio|[]]].
+      * destruct (Hst i o Hio) as (A1 & A2 & A3). split; [exact A1|]. split; [lia|].
+        unfold nm_stored, buf1. rewrite write_at_other; [exact A3 | exact Hl | lia |].
+        unfold nm_size, zlen in *. lia.
+      * inversion Hio; subst i o. split; [exact Hl|]. split; [unfold nm_size; lia|].
+        unfold nm_stored, buf1. replace (length (nstr id) + 1)%nat with (length (nstr id ++ [0])) by (rewrite app_length; reflexivity).
+        apply write_at_same; [exact Hl | lia].
+    + exists buf', offs'. replace (last + (zlen (nstr id) + 1 + order_size todo)) with (last + zlen (nstr id) + 1 + order_size todo) by lia.
+      split; [exact E|]. split; [rewrite H1; exact Hlen1|]. split.
+      { rewrite H2, map_app. cbn [map fst]. rewrite <- app_assoc. reflexivity. }
+      split; [rewrite H3, offs_size_app; unfold offs_size at 2; cbn [fold_right fst]; unfold nm_size; lia | exact H4].
+Qed.
+
+Lemma nm_pack_spec : forall order st, nm_wf order st ->
+  nm_wf order (nm_pack order st) /\
+  (forall id, In id order -> nm_name (nm_pack order st) id = nm_name st id) /\
+  nm_used (nm_pack order st) <= nm_used st /\ nm_max (nm_pack order st) = nm_max st /\
+  nm_used (nm_pack order st) = fold_right (fun id a => zlen (nstr id) + 1 + a) 0 order.
+Proof.
+  intros order st Hwf. pose proof (wf_used _ _ Hwf) as Hu. pose proof (wf_len _ _ Hwf) as Hlen.
+  assert (Hsum : order_size order <= nm_used st) by (rewrite (nm_wf_order_size _ _ Hwf); apply (wf_sum _ _ Hwf)).
+  destruct (nm_pack_fold st order (repeat 0 (Z.to_nat (nm_used st))) 0 [])
+    as (buf' & offs' & E & H1 & H2 & H3 & H4).
+  { intros id Hid. apply (nm_name_wf order); assumption. }
+  { lia. }
+  { rewrite zlen_repeat. lia. }
+  { intros id o []. }
+  rewrite zlen_repeat in H1. rewrite Z.add_0_l in *. cbn [map app] in H2. change (offs_size []) with 0 in H3.
+  pose proof (order_size_nonneg order) as Hnn.
+  assert (Hwf' : nm_wf order (nm_pack order st)).
+  { unfold nm_pack. rewrite E. constructor; cbn [nm_mem nm_used nm_max nm_off].
+    - rewrite zlen_copy_prefix by lia. exact Hlen.
+    - lia.
+    - apply (wf_order _ _ Hwf).
+    - apply (wf_nonneg _ _ Hwf).
+    - rewrite H2. apply (wf_order _ _ Hwf).
+    - intros id. rewrite H2. reflexivity.
+    - intros id o Hio. destruct (H4 id o Hio) as (A1 & A2 & A3). split; [exact A1|]. split; [exact A2|].
+      unfold nm_stored, copy_prefix in *. rewrite region_prefix; [exact A3 | | ]; unfold nm_size, zlen in *; lia.
+    - lia. }
+  split; [exact Hwf'|]. split.
+  { intros id Hid. rewrite (nm_name_wf order _ id Hwf' Hid), (nm_name_wf order _ id Hwf Hid). reflexivity. }
+  unfold nm_pack. rewrite E. cbn [nm_used nm_max]. split; [exact Hsum|]. split; reflexivity.
+Qed.
+
+(* 4: memRemax *)
+Lemma nm_remax_spec : forall order st m, nm_wf order st ->
+  nm_wf order (nm_remax st m) /\
+  (forall id, In id order -> nm_name (nm_remax st m) id = nm_name st id) /\
+  nm_used (nm_remax st m) = nm_used st /\ nm_max (nm_remax st m) = Z.max m (nm_used st).
+Proof.
+  intros order st m Hwf. pose proof (wf_used _ _ Hwf) as Hu. pose proof (wf_len _ _ Hwf) as Hlen.
+  assert (Hm : (if m <? nm_used st then nm_used st else m) = Z.max m (nm_used st)) by (destruct (Z.ltb_spec m (nm_used st)); lia).
+  assert (Hwf' : nm_wf order (nm_remax st m)).
+  { unfold nm_remax. rewrite Hm. constructor; cbn [nm_mem nm_used nm_max nm_off].
+    - apply zlen_resize. lia.
+    - lia.
+    - apply (wf_order _ _ Hwf).
+    - apply (wf_nonneg _ _ Hwf).
+    - apply (wf_ids _ _ Hwf).
+    - apply (wf_same _ _ Hwf).
+    - intros id o Hio. destruct (wf_stored _ _ Hwf id o Hio) as (A1 & A2 & A3). split; [exact A1|]. split; [exact A2|].
+      unfold nm_stored, resize in *. rewrite region_prefix; [exact A3 | | ]; unfold nm_size, zlen in *; lia.
+    - apply (wf_sum _ _ Hwf). }
+  split; [exact Hwf'|]. split.
+  { intros id Hid. rewrite (nm_name_wf order _ id Hwf' Hid), (nm_name_wf order _ id Hwf Hid). reflexivity. }
+  unfold nm_remax. cbn [nm_used nm_max]. split; [reflexivity | exact Hm].
+Qed.
+
+(* 5: add *)
+Lemma nm_add_spec : forall order st id, nm_wf order st -> 0 <= id -> ~ In id order ->
+  nm_wf (order ++ [id]) (nm_add order st id) /\ nm_name (nm_add order st id) id = nstr id /\
+  (forall other, In other order -> nm_name (nm_add order st id) other = nm_name st other).
+Proof.
+  intros order st id Hwf Hid Hnin. unfold nm_add. cbv zeta.
+  set (len := zlen (nstr id)). pose proof (zlen_nonneg (nstr id)) as Hlen0. fold len in Hlen0.
+  set (st1 := if nm_max st <=? nm_used st + len
+              then (if nm_max (nm_pack order st) <=? nm_used (nm_pack order st) + len
+                    then nm_remax (nm_pack order st) (2 * nm_max (nm_pack order st) + 9 + len)
+                    else nm_pack order st)
+              else st).
+  assert (H1 : nm_wf order st1 /\ nm_used st1 + len + 1 <= nm_max st1).
+  { unfold st1. destruct (Z.leb_spec (nm_max st) (nm_used st + len)) as [Hfull|Hfree]; [|split; [exact Hwf | lia]].
+    destruct (nm_pack_spec order st Hwf) as (P1 & _ & _ & _ & _).
+    destruct (Z.leb_spec (nm_max (nm_pack order st)) (nm_used (nm_pack order st) + len)) as [Hfull2|Hfree2];
+      [|split; [exact P1 | lia]].
+    destruct (nm_remax_spec order _ (2 * nm_max (nm_pack order st) + 9 + len) P1) as (R1 & _ & R3 & R4).
+    split; [exact R1|]. rewrite R3, R4. pose proof (wf_used _ _ P1). lia. }
+  destruct H1 as [Hwf1 Hfit]. clearbody st1.
+  pose proof (wf_used _ _ Hwf1) as Hu. pose proof (wf_len _ _ Hwf1) as Hl.
+  assert (Hs : zlen (nstr id ++ [0]) = len + 1) by (rewrite zlen_app; reflexivity).
+  assert (Hwf' : nm_wf (order ++ [id])
+                   (mkNM (write_at (nm_mem st1) (nm_used st1) (nstr id ++ [0])) (nm_used st1 + len + 1) (nm_max st1)
+                         (nm_off st1 ++ [(id, nm_used st1)]))).
+  { constructor; cbn [nm_mem nm_used nm_max nm_off].
+    - rewrite write_at_zlen by lia. exact Hl.
+    - lia.
+    - apply NoDup_snoc; [exact Hnin | apply (wf_order _ _ Hwf1)].
+    - intros i Hi. apply in_app_or in Hi. destruct Hi as [Hi|[Hi|[]]]; [apply (wf_nonneg _ _ Hwf1); exact Hi | lia].
+    - rewrite map_app. cbn [map fst]. apply NoDup_snoc; [|apply (wf_ids _ _ Hwf1)].
+      intros C. apply Hnin. apply (wf_same _ _ Hwf1). exact C.
+    - intros i. rewrite map_app, !in_app_iff. cbn [map fst]. rewrite (wf_same _ _ Hwf1 i). reflexivity.
+    - intros i o Hio. apply in_app_or in Hio. destruct Hio as [Hio|[Hio|[]]].
+      + destruct (wf_stored _ _ Hwf1 i o Hio) as (A1 & A2 & A3). split; [exact A1|]. split; [lia|].
+        unfold nm_stored. rewrite write_at_other; [exact A3 | lia | lia |]. unfold nm_size, zlen in *. lia.
+      + inversion Hio; subst i o. split; [lia|]. split; [unfold nm_size; fold len; lia|].
+        unfold nm_stored. replace (length (nstr id) + 1)%nat with (length (nstr id ++ [0])) by (rewrite app_length; reflexivity).
+        apply write_at_same; lia.
+    - rewrite offs_size_app. unfold offs_size at 2. cbn [fold_right fst]. unfold nm_size. fold len.
+      pose proof (wf_sum _ _ Hwf1). lia. }
+  split; [exact Hwf'|]. split.
+  - apply (nm_name_wf (order ++ [id])); [exact Hwf' | apply in_or_app; right; left; reflexivity].
+  - intros other Ho. rewrite (nm_name_wf order st other Hwf Ho).
+    apply (nm_name_wf (order ++ [id])); [exact Hwf' | apply in_or_app; left; exact Ho].
+Qed.
+
+(* 6: removals and clear *)
+Lemma NoDup_map_filter {A B} (f : A -> B) (p : A -> bool) l : NoDup (map f l) -> NoDup (map f (filter p l)).
+Proof.
+  induction l as [|a l IH]; cbn [map filter]; intros H; [constructor|]. inversion H as [|? ? Hn Hd]; subst.
+  destruct (p a); cbn [map]; [|apply IH; exact Hd]. constructor; [|apply IH; exact Hd].
+  intros C. apply Hn. apply in_map_iff in C. destruct C as (x & Ex & Hx). apply filter_In in Hx.
+  apply in_map_iff. exists x. tauto.
+Qed.
+
+Lemma offs_size_filter p offs : offs_size (filter p offs) <= offs_size offs.
+Proof.
+  unfold offs_size. induction offs as [|e r IH]; cbn [filter fold_right]; [lia|].
+  pose proof (nm_size_pos (fst e)). destruct (p e); cbn [fold_right]; lia.
+Qed.
+
+Lemma nm_keep_spec : forall order st rem, nm_wf order st -> NoDup rem -> (forall id, In id rem -> In id order) ->
+  nm_wf rem (nm_keep rem st) /\ (forall id, In id rem -> nm_name (nm_keep rem st) id = nm_name st id).
+Proof.
+  intros order st rem Hwf Hnd Hsub.
+  assert (Hwf' : nm_wf rem (nm_keep rem st)).
+  { unfold nm_keep. constructor; cbn [nm_mem nm_used nm_max nm_off].
+    - apply (wf_len _ _ Hwf).
+    - apply (wf_used _ _ Hwf).
+    - exact Hnd.
+    - intros id Hid. apply (wf_nonneg _ _ Hwf). apply Hsub. exact Hid.
+    - apply NoDup_map_filter. apply (wf_ids _ _ Hwf).
+    - intros id. split.
+      + intros Hid. pose proof (Hsub id Hid) as Ho. apply (wf_same _ _ Hwf) in Ho.
+        apply in_map_iff in Ho. destruct Ho as ([i o] & Ei & Hio). cbn [fst] in Ei. subst i.
+        apply in_map_iff. exists (id, o). split; [reflexivity|]. apply filter_In. split; [exact Hio|].
+        cbn [fst]. apply existsb_exists. exists id. split; [exact Hid | apply Z.eqb_refl].
+      + intros Hid. apply in_map_iff in Hid. destruct Hid as ([i o] & Ei & Hio). cbn [fst] in Ei. subst i.
+        apply filter_In in Hio. destruct Hio as [_ Hex]. apply existsb_exists in Hex.
+        destruct Hex as (x & Hx & Ex). cbn [fst] in Ex. apply Z.eqb_eq in Ex. subst x. exact Hx.
+    - intros id o Hio. apply filter_In in Hio. apply (wf_stored _ _ Hwf id o). tauto.
+    - pose proof (offs_size_filter (fun e => existsb (Z.eqb (fst e)) rem) (nm_off st)). pose proof (wf_sum _ _ Hwf). lia. }
+  split; [exact Hwf'|]. intros id Hid.
+  rewrite (nm_name_wf rem _ id Hwf' Hid), (nm_name_wf order _ id Hwf (Hsub id Hid)). reflexivity.
+Qed.
+
+Lemma nm_clear_wf : forall order st, nm_wf order st -> nm_wf [] (nm_clear st).
+Proof.
+  intros order st Hwf. pose proof (wf_used _ _ Hwf). unfold nm_clear. constructor; cbn [nm_mem nm_used nm_max nm_off map].
+  - apply (wf_len _ _ Hwf).
+  - lia.
+  - constructor.
+  - intros id [].
+  - constructor.
+  - intros id. split; intros [].
+  - intros id o [].
+  - cbn. lia.
+Qed.
